@@ -12,6 +12,11 @@ def run(ctx, res):
                       "C18.panic (panic sources in crate / sibling-crate code reachable from the four conversion entry points: discharged, allowlisted or known finding)"]
     map_rule(ctx, res)
     panic_rule(ctx, res)
+    # "equal up to object entry order": the comparison is by key, so the objects that from_serde_json builds (push family)
+    # must be queryable by key - push keeps the key index exact and the index hashes keys consistently
+    from . import C06
+    res.rules_run.append("C18.index (objects built by from_serde_json stay queryable: push on every small object keeps the key index exact and the queries answer what a scan would; the index hashes the key itself everywhere - C06.model restricted to push and the queries)")
+    C06.model_rule(ctx, res, rule="C18.index", ops={"push", "queries"})
     res.notes.append("not decided: numeric equality of converted numbers (json-number converts through text / f64)")
     res.trusted += ["serde_json's Display for Number prints a JSON number", "std iterator adaptors (map / collect) visit every element once, in order"]
 
